@@ -90,6 +90,13 @@ CLAIMED = {
     note="Level 'other': necessary structural clauses. Trusted: abstract interpreter soundness, hash model, lib/spec.py transcription.",
     technique="abstract interpretation over monomorphic MIR: symbolic hash absorb lists and read offsets, generator probes, exact-copy provenance tags on byte arrays; piecewise-affine kernel exactness",
     engine="driver-ai"),
+ "C11": dict(
+    category="other",
+    text="A public key is the struct (rho, tr, t1-precompute). For get_public_key on every deserialisable and every generated private key, all three sets: D1 the derived rho is an unmodified copy of the private key's rho (exact-copy provenance tag through the abstract run); D2 the derived tr is an unmodified copy of the private key's tr, or is recomputed as H(.,64) over exactly PK_LEN bytes = rho followed by k 320-byte blocks, read once at offset 0 - a zeroed, partially rewritten or partially hashed tr is reported; D3 the matrix used is ExpandA(private key's rho) with FIPS index bytes/order; D4 Power2Round applied exactly once to a fully reduced t and exact on Z_q (C15 engine); D5 the derived key's precompute lies in the abstract class proved for generated/deserialised keys and verify / hash_verify / _internal_verify composed with a derived key violate no obligation. Not decided: equality of the recomputed t1 with the generated one (ring arithmetic), hence not full behavioural equality.",
+    design_ref="DESIGN.md §4 C11",
+    note="Level 'other'. The suite's own byte comparison of derived vs generated keys covers t1 on its samples; tr (ignored by serialisation) is what this check decides exactly. Trusted: abstract interpreter soundness, hash model.",
+    technique="abstract interpretation over monomorphic MIR with exact-copy provenance tags on byte arrays, hash absorb-list probes, obligation discharge under key-producer composition",
+    engine="driver-ai"),
  "C08": dict(
     category="other",
     text="Clauses decided statically. R1: HintBitUnpack run on 78 (x3 sets) abstract input classes generated from (k, omega) - count above omega, count below the running index (every polynomial, two prefix shapes and the boundary member), non-increasing / repeated positions, non-zero unused bytes, each at first/middle/last position - every member of an error class is definitely rejected, every member of a canonical class definitely accepted. R2: encoder and decoder of sig/pk/sk use identical byte ranges that tile [0, LEN) and equal the FIPS 204 layout. R3: BitUnpack accepts exactly [-a, b] for every (a, b) in use (total when a+b+1 is a power of two). Not decided: re-encode identity for every accepted byte string and the bit-level bijection.",
@@ -134,7 +141,7 @@ man = {
  "engines": [
    {"name": "cfg-matrix", "path": "checks/c17.py", "serves_properties": ["C17"], "kind_free_text": "feature-configuration matrix: rustc lints + MIR fingerprints"},
    {"name": "driver-facts", "path": "driver/src/facts.rs", "serves_properties": ["C16", "C17"], "kind_free_text": "type/layout/drop-glue/call-graph facts"},
-   {"name": "driver-ai", "path": "driver/src/ai/", "serves_properties": ["C02", "C03", "C04", "C06", "C07", "C08", "C10", "C12", "C13", "C14", "C15", "C18"], "kind_free_text": "abstract interpreter over monomorphic MIR"},
+   {"name": "driver-ai", "path": "driver/src/ai/", "serves_properties": ["C02", "C03", "C04", "C11", "C06", "C07", "C08", "C10", "C12", "C13", "C14", "C15", "C18"], "kind_free_text": "abstract interpreter over monomorphic MIR"},
    {"name": "driver", "path": "driver/", "serves_properties": sorted(CLAIMED), "kind_free_text": "rustc_private driver over type-checked monomorphic MIR (facts, call graph, abstract interpretation)"},
  ],
  "checks": checks,
